@@ -317,12 +317,16 @@ def timing(ctx, comp, ex, cls, cn) -> int:
             ctl = {a for _, a in _w(ag["addr"]) | _w(ag["en"])}
             dat = {a for _, a in _w(ag["data"])}
             ok = len(ctl) == 1 and dat <= ctl and not _r(ag["addr"]) and not _r(ag["en"])
+            # ... and they are the user's write address / enable / (for a memory of the user's row shape) data
+            mo = ex.obj(mem)
+            row_shaped = mo is not None and mo.ctor[0] == "call" and dict(mo.ctor[3]).get("shape") == ("a", ("self",), "shape")
+            ok = ok and any(k == "W.addr" for k, _ in ag["addr"]) and any(k == "W.en" for k, _ in ag["en"]) and (not row_shaped or any(k == "W.data" for k, _ in ag["data"]))
             ctx.check(ok, "C23.write-port-coherent", site, f"{cls}.{name}[{cn}]", found=f"addr {_fmt(ag['addr'])}, en {_fmt(ag['en'])}, data {_fmt(_w(ag['data']))}",
                       required="address, enable and data of an inner write port come from user-write signals of one age")
         else:
             ages_ = {a for _, a in ag["addr"] | ag["en"]}
             kinds_ok = all(k.endswith(".addr") for k, _ in ag["addr"]) and all(k.endswith(".en") for k, _ in ag["en"])
-            ok = len(ages_) == 1 and kinds_ok and all(a == 0 for k, a in ag["addr"] | ag["en"] if k.startswith("R."))
+            ok = len(ages_) == 1 and kinds_ok and all(a == 0 for k, a in ag["addr"] | ag["en"] if k.startswith("R.")) and bool(ag["addr"])
             ctx.check(ok, "C23.read-port-coherent", site, f"{cls}.{name}[{cn}]", found=f"addr {_fmt(ag['addr'])}, en {_fmt(ag['en'])}",
                       required="address and enable of an inner read port have one age; user read addresses and enables reach it unregistered")
     # ---- multiplexers ------------------------------------------------------------------------------------------------
@@ -373,6 +377,9 @@ def timing(ctx, comp, ex, cls, cn) -> int:
                     ok = ac == frozenset({("R.en", 1)}) and bool(aa) and not ab and held
                     ctx.check(ok, "C23.hold-mux", site, cons, found=f"condition {_fmt(ac)}, selected {_fmt(aa)[:120]}, otherwise {_fmt(ab)}",
                               required="Mux(read enable of the previous cycle, new value, held value)")
+                else:
+                    ctx.bad("C23.mux-condition", site, cons, found=f"condition {tstr(c)[:120]} depends on no port signal",
+                            required="a multiplexer in the data path selects by port signals (a constant condition makes one arm dead)")
     # ---- every inner read port that answers a user read: addressed by it, consulted, and its blind window bypassed --------
     out_ages = frozenset(net._of_defs(("out",)))
     for oid, o in sorted(ex.objects.items()):
@@ -385,7 +392,7 @@ def timing(ctx, comp, ex, cls, cn) -> int:
         # read ports of one memory object are told apart only by what drives them: a port that is driven by user read
         # addresses somewhere is a real read port
         if not any(k == "R.addr" for k, _ in a_addr):
-            if not net.defs.get(("port", p, "addr")) or not out_ages:
+            if not net.defs.get(("port", p, "addr")) or not net.defs.get(("out",)):
                 continue
             # a port driven only by write addresses is a feedback port - unless nothing else answers the user read
             siblings_real = any(any(k == "R.addr" for k, _ in net._of_defs(("port", q, "addr"))) for oid2 in ex.objects for q in [("obj", oid2)] if net.port_kind(q)[0] == "read")
@@ -393,7 +400,7 @@ def timing(ctx, comp, ex, cls, cn) -> int:
             ctx.check(siblings_real, "C23.read-addressed", o.site, f"{cls}.{o.name}[{cn}]", found=f"no inner read port is addressed by the user's read address (this one: {_fmt(a_addr)})",
                       required="a user read is answered through an inner read port that gets the user's read address")
             continue
-        if not out_ages:
+        if not net.defs.get(("out",)):
             continue
         n += 1
         ctx.check((f"M:{oid}", 1) in out_ages or any(k == f"M:{oid}" for k, _ in out_ages), "C23.read-consulted", o.site, f"{cls}.{o.name}[{cn}]",
